@@ -62,6 +62,13 @@ class K2Old(K2):
     pass
 
 
+@deprecate
+class K2Older(K2Old):
+    """A still older name: a deprecated class whose replacement is itself deprecated"""
+
+    pass
+
+
 class V(Config):
     """Structured scalar values (lists / dicts of ints and strings)"""
 
